@@ -27,7 +27,7 @@ def _patched_files(patch_path, root="/repo"):
     if not files:
         return None
     h = hashlib.sha256(txt.encode()).hexdigest()[:12]
-    d = os.path.join(WORK, h)
+    d = os.path.join(WORK, "%s-%d" % (h, os.getpid()))  # per process: checks of several properties may run side by side
     shutil.rmtree(d, ignore_errors=True)
     for f in files:
         src = os.path.join(root, f)
